@@ -42,7 +42,7 @@ def read_tsv(path):
     return rows
 
 
-def run_task(file_text, over, pool=None, data_name='data.csv', keep_dir=False, pool_factory=None, via_cli=False, reset=True, relative=False):
+def run_task(file_text, over, pool=None, data_name='data.csv', keep_dir=False, pool_factory=None, via_cli=False, reset=True, relative=False, tolerate_exception=False):
     """Run the real ranking task on a CSV given as text.  Returns a dict of observations."""
     from outrank import core_ranking as cr
     from outrank import task_ranking as tr
@@ -108,6 +108,10 @@ def run_task(file_text, over, pool=None, data_name='data.csv', keep_dir=False, p
                             tr.outrank_task_conduct_ranking(args)
                     except SystemExit as e:
                         obs['exit'] = str(e.code)
+                    except Exception as e:  # noqa - recorded; the judges decide what an exception of the task means for their property
+                        if not tolerate_exception:
+                            raise
+                        obs['exception'] = f'{type(e).__name__}: {e}'
                     obs['checkpoint_left_behind'] = os.path.exists('ranking_checkpoint_tmp.tsv')
         finally:
             tr.Pool = orig['Pool']
@@ -287,9 +291,12 @@ def judge_quality_e2e(case):
     mb = case['minibatch_size']
     over = dict(minibatch_size=mb, subsampling=1, task=case['task'], rare_value_count_upper_bound=case['threshold'],
                 include_cardinality_in_feature_names=case.get('annotate', 'True'), heuristic='MI-numba-randomized')
-    ok, obs = safe(run_task, text, over, via_cli=bool(case.get('via_cli')))
+    ok, obs = safe(run_task, text, over, via_cli=bool(case.get('via_cli')), tolerate_exception=True)
     if not ok:
         return [({'kind': 'exception', 'task': case['task']}, f'task raised {obs}')]
+    if obs.get('exception') and not (case['task'] == 'identify_rare_values' and obs.get('rare_values') is not None and obs.get('returned') is not None):
+        # the statement is about the reports; an exception raised AFTER the rare-value report was written (in the sparsity summary) is not judged here
+        return [({'kind': 'exception', 'task': case['task']}, f'task raised {obs["exception"]} before its report was written')]
     fails = []
     header = ['fa', 'fb', 'label']
     used = rows[:(len(rows) // mb) * mb]
